@@ -414,6 +414,24 @@ def unit_rejects_non_words(ctx, rule, core):
            "`()` overrides %s; Flag::from_meta (used by the derive-time `flatten` option and by Flag fields) calls unwrap_err() on <()>::from_meta for every non-path item" % [u["items"] for u in unit])
 
 
+def consistent(d):
+    """a conjunction of atom strings without an obvious contradiction (one expression with two
+    different values, a value and its exclusion)"""
+    seen_ = {}
+    for a_ in d:
+        l, _, r = a_.rpartition("=")
+        if r.startswith("('not-in'"):
+            continue
+        if l in seen_ and seen_[l] != r:
+            return False
+        seen_[l] = r
+    for a_ in d:
+        l, _, r = a_.rpartition("=")
+        if r.startswith("('not-in'") and l in seen_ and (("'%s'" % seen_[l]) in r or re.search(r"[(, ]%s[,)]" % re.escape(seen_[l]), r)):
+            return False
+    return True
+
+
 def callable_args_conditions(ctx, f, callee_rx, positions):
     """For the call of `f` matching callee_rx: the conditions under which each bool-returning callable
     handed at `positions` (a closure or a fn item) returns true, with its parameter named `elem`:
@@ -496,5 +514,21 @@ def inherit_when_absent(ctx, rule_keep, rule_value, f, field, new_value_rx):
                         new_ok = False
                 elif v not in IDENT:
                     keep_ok = False
+    # `self.x.get_or_insert_with(|| v)`: writes only when absent, by definition of the method
+    goi = []
+    for blk, t in ctx.find_calls(f, r"^core::option::Option::<T>::get_or_insert_with$"):
+        if ctx.expr(f, t["args"][0]) == own:
+            goi.append((blk, t))
+            seen_new = True
+            vals = []
+            for c in ctx.closures_of(f):
+                if c.key in ctx.expr(f, t["args"][1]):
+                    vals = ctx.ret_values(c)
+            detail.append((["get_or_insert_with"], [v[:120] for v in vals]))
+            inner_rx = re.sub(r"^\^?(core::option::Option::)?Some\\\{", "", new_value_rx)
+            inner_rx = re.sub(r"\\\}\$?$", "", inner_rx)
+            if not vals or not all(re.search(inner_rx, v) for v in vals):
+                new_ok = False
+    writes = list(writes) + goi
     ctx.ob(rule_keep, f.key, "self.%s kept when present" % field, keep_ok and bool(writes), "writes: %s" % detail)
     ctx.ob(rule_value, f.key, "self.%s inherited when absent" % field, new_ok and seen_new, "writes: %s" % detail)
